@@ -1,0 +1,82 @@
+//go:build verif
+
+package mysql
+
+import (
+	"context"
+
+	"github.com/sirupsen/logrus"
+
+	base_mysql "github.com/cossacklabs/acra/decryptor/mysql/base"
+	encryptor_mysql "github.com/cossacklabs/acra/encryptor/mysql"
+)
+
+// Verification hooks (C12 / C14, MySQL wire format): add-only, compiled only with -tags verif.
+
+// VerifX12NewPacket builds a Packet from a 4-byte header and a payload without reading a connection.
+func VerifX12NewPacket(header []byte, data []byte) *Packet {
+	p := NewPacket()
+	copy(p.header, header)
+	p.data = data
+	return p
+}
+
+// VerifX12Header returns the 4 header bytes the packet currently carries.
+func (packet *Packet) VerifX12Header() []byte { return packet.header }
+
+// VerifX12IsResultSetRowsEnd exposes isResultSetRowsEnd.
+func (packet *Packet) VerifX12IsResultSetRowsEnd() bool { return packet.isResultSetRowsEnd() }
+
+// VerifX12ReplaceQuery exposes replaceQuery (COM_QUERY / COM_STMT_PREPARE text rewritten in place).
+func (packet *Packet) VerifX12ReplaceQuery(newQuery string) { packet.replaceQuery(newQuery) }
+
+// VerifX12MarkChanged does to a parsed column definition what updateFieldEncodedType /
+// PreparedStatementFieldTracker do when the configured type differs: remember the type of the
+// database, set the new one and mark the definition for re-serialisation by Dump.
+func (field *ColumnDescription) VerifX12MarkChanged(newType byte) {
+	field.originType = field.Type
+	field.Type = base_mysql.Type(newType)
+	field.changed = true
+}
+
+// VerifX12State returns the unexported bookkeeping of a column definition.
+func (field *ColumnDescription) VerifX12State() (changed bool, originType byte, mariaDBExtendedTypeInfo bool) {
+	return field.changed, byte(field.originType), field.mariaDBExtendedTypeInfo
+}
+
+// VerifX12MaxPayloadLen is the payload length at which readPacket continues with the next packet.
+func VerifX12MaxPayloadLen() int { return MaxPayloadLen }
+
+// VerifX12NumericStorage returns the (type, width) table NewMysqlBoundValue / Encode use.
+func VerifX12NumericStorage() map[byte]int {
+	out := map[byte]int{}
+	for t, w := range base_mysql.NumericTypesStorageBytes {
+		out[byte(t)] = int(w)
+	}
+	return out
+}
+
+// VerifX12HandleStatementExecute runs Handler.handleStatementExecute on a COM_STMT_EXECUTE payload with a registry
+// that holds the statement `stmtID` with `paramsNum` parameters and no query observers.
+func VerifX12HandleStatementExecute(ctx context.Context, payload []byte, stmtID uint32, paramsNum uint16) (uint32, error) {
+	logger := logrus.New()
+	logger.SetLevel(logrus.PanicLevel)
+	manager, err := encryptor_mysql.NewArrayQueryObservableManager(ctx)
+	if err != nil {
+		return 0, err
+	}
+	handler := &Handler{logger: logrus.NewEntry(logger), registry: NewPreparedStatementRegistry(), protocolState: NewProtocolState(),
+		queryObserverManager: manager}
+	handler.registry.AddStatement(NewPreparedStatementItem(NewPreparedStatement(stmtID, paramsNum, "", nil), nil))
+	return handler.handleStatementExecute(ctx, VerifX12NewPacket([]byte{byte(len(payload)), byte(len(payload) >> 8), byte(len(payload) >> 16), 0}, payload))
+}
+
+// VerifX12Capabilities runs the capability accessors ProxyClientConnection / ProxyDatabaseConnection apply to the
+// first packet of the client (handshake response) resp. of the database (initial handshake).
+func VerifX12Capabilities(payload []byte, fromClient bool) (uint32, uint32) {
+	p := VerifX12NewPacket([]byte{byte(len(payload)), byte(len(payload) >> 8), byte(len(payload) >> 16), 0}, payload)
+	if fromClient {
+		return p.getClientCapabilities(), p.getClientExtendedMariaDBCapabilities()
+	}
+	return p.getServerCapabilities(), p.getExtendedMariaDBCapabilities()
+}
